@@ -174,7 +174,11 @@ def try_switch_of_call(b, call_bb):
     return sw, arms.get("0", b.term(sw)["else"]), arms.get("1", b.term(sw)["else"])
 
 
-def collect_guards(facts, b, fl, depth=0):
+def _is_struct_datum(o):
+    return o[0] in ("param", "upvar")
+
+
+def collect_guards(facts, b, fl, depth=0, datum=_is_struct_datum):
     """comparisons `x OP len(container)`: list of dicts with the switch that tests them"""
     out = []
     if depth == 0:
@@ -242,8 +246,40 @@ def collect_guards(facts, b, fl, depth=0):
         tgt_false = arms.get("0", t["else"])
         oor_tgt = tgt_true if oor_when else tgt_false
         in_tgt = tgt_false if oor_when else tgt_true
-        out.append({"switch": bb, "idx": frozenset(o for o in idx_or if o[0] in ("param", "upvar")),
+        out.append({"switch": bb, "idx": frozenset(o for o in idx_or if datum(o)),
                     "elem": ln[0], "recv": ln[1], "oor": oor_tgt, "inr": in_tgt})
+    return out
+
+
+def len_equalities(b, fl, site_bb):
+    """pairs (origins of A, origins of B) such that a guard `len(A) == len(B)` (failing outcome -> cannot reach the site)
+    dominates site_bb"""
+    out = []
+    for bb in range(b.nblocks()):
+        if b.term(bb)["k"] != "switch" or b.is_cleanup(bb) or not C.dominates(b, bb, site_bb):
+            continue
+        src = C.switch_source(b, bb)
+        if not src or src["kind"] != "cmp" or src["op"] not in ("Eq", "Ne"):
+            continue
+
+        def len_recv(op):
+            for o in fl.origins(op, (src["bb"], src["j"])):
+                if o[0] == "call" and o[2].endswith("::len"):
+                    t = b.term(o[1])
+                    return fl.origins(t["args"][0], (o[1], None)) if t["args"] else None
+            return None
+        ra, rb = len_recv(src["a"]), len_recv(src["b"])
+        if not ra or not rb:
+            continue
+        differ_when = (src["op"] == "Ne")
+        if src["neg"]:
+            differ_when = not differ_when
+        t = b.term(bb)
+        arms = dict(t["arms"])
+        tgt_differ = arms.get("1", t["else"]) if differ_when else arms.get("0", t["else"])
+        if site_bb in C.reachable(b, [tgt_differ]):
+            continue
+        out.append((ra, rb))
     return out
 
 
@@ -251,6 +287,7 @@ def index_guarded(b, fl, bb, data, elem, guards):
     recv = fl.origins(b.term(bb)["args"][0], (bb, None))
     data = set(data)
     tried = []
+    eqs = None
     for g in guards:
         if not (g["idx"] & data):
             continue
@@ -258,8 +295,12 @@ def index_guarded(b, fl, bb, data, elem, guards):
             tried.append("guard at bb%d compares against len of Vec<%s>, indexing Vec<%s>" % (g["switch"], g["elem"], elem))
             continue
         if recv and g["recv"] and not (recv & g["recv"]):
-            tried.append("guard at bb%d measures a different container" % g["switch"])
-            continue
+            if eqs is None:
+                eqs = len_equalities(b, fl, bb)
+            linked = any((ra & recv and rb & g["recv"]) or (rb & recv and ra & g["recv"]) for ra, rb in eqs)
+            if not linked:
+                tried.append("guard at bb%d measures a different container" % g["switch"])
+                continue
         # (a) path guard: without the in-range edge the index is unreachable, and the out-of-range edge cannot reach it
         rem = {(g["switch"], g["inr"])}
         if bb in C.reachable(b, [g["oor"]]) and g["oor"] != g["inr"]:
